@@ -692,7 +692,7 @@ class Parser:
                     nested_meta: dict[str, Any] = {}
                     # PR#307 Finding 1: Track duplicate keys within nested blocks
                     nested_key_positions: dict[str, list[int]] = {}
-                    if self.current().type == TokenType.INDENT:
+                    if self.current().type == TokenType.INDENT and self.current().value > indent_level:
                         nested_indent = self.current().value
                         self.advance()
                         nested_has_indented = True
@@ -771,7 +771,7 @@ class Parser:
 
         return meta
 
-    def parse_section_marker(self) -> Section | None:
+    def parse_section_marker(self, base_indent: int = 0) -> Section | None:
         """Parse §NUMBER::NAME or §IDENTIFIER::NAME section marker with nested children.
 
         Pattern: §NUMBER[SUFFIX]::NAME[bracket_tail] or §IDENTIFIER::[NAME] followed by indented children.
@@ -862,8 +862,9 @@ class Parser:
                 pre_indent_comments.append(self.current().value)
             self.advance()
 
-        # Expect indentation for children
-        if self.current().type == TokenType.INDENT:
+        # Expect indentation for children (deeper than the section marker's own line, so that
+        # an empty nested section does not adopt the sibling that follows it)
+        if self.current().type == TokenType.INDENT and self.current().value > base_indent:
             child_indent = self.current().value
             self.advance()
 
@@ -972,7 +973,7 @@ class Parser:
         """
         # Check for section marker first
         if self.current().type == TokenType.SECTION:
-            section = self.parse_section_marker()
+            section = self.parse_section_marker(base_indent)
             if section and leading_comments:
                 section.leading_comments = leading_comments
             return section
@@ -1091,8 +1092,10 @@ class Parser:
                     )
                 )
 
-            # Expect indentation for children
-            elif self.current().type == TokenType.INDENT:
+            # Expect indentation for children. Children must be indented deeper than the
+            # block's own line: an empty block ("B2:" with nothing under it) followed by a
+            # sibling at the same indent must not adopt that sibling as its child.
+            elif self.current().type == TokenType.INDENT and self.current().value > base_indent:
                 child_indent = self.current().value
                 self.advance()
 
